@@ -110,6 +110,7 @@ func c16Common(g *Gen, sc *Scn, span int, cuts ...int) {
 		sc.SetInt("at", g.Range(0, span+1))
 		sc.SetInt("half", g.Intn(2))
 	}
+	sc.SetInt("ctxval", g.Intn(2))
 	if g.Bool(0.25) {
 		sc.SetInt("visitor", g.Range(0, 2*span)) // in half units
 		sc.SetInt("vstay", g.Range(0, span))
@@ -183,12 +184,12 @@ func genC16Periodic(g *Gen) *Scn {
 	switch sc.Sub {
 	case "IntervalWithInitial":
 		// initial delay below, at and above the period; 0 is the documented "immediate first value" case
-		i := g.PickInt(0, 1, p-1, p, p+1, 2*p, 2*p+1)
-		if i < 0 {
-			i = 0
-		}
-		sc.SetInt("i", i)
+		i := g.PickInt(0, 1, p-1, p, p+1, 2*p, 2*p+1, -1, -p)
+		sc.SetInt("i", i) // a negative initial delay counts as none
 		first = i
+		if first < 0 {
+			first = 0
+		}
 	case "RangeWithInterval":
 		sc.SetInt("start", g.Range(-3, 5))
 		sc.SetInt("n", g.Range(0, 5))
@@ -258,7 +259,7 @@ func c16Problem(sc *Scn) string {
 		}
 	case "C16.periodic":
 		needScript = false
-		if sc.Int("run", 0) < 1 || sc.Int("n", 0) < 0 || sc.Int("i", 0) < 0 {
+		if sc.Int("run", 0) < 1 || sc.Int("n", 0) < 0 || sc.Int("i", 0) < -64 {
 			return "illegal periodic parameters"
 		}
 		switch sc.Sub {
@@ -345,6 +346,17 @@ func (m c16Emit) String() string {
 // visiting second subscriber (c16Visit) runs the cold source once more under a context that says so.
 func c16Tap(e *Env, log *[]c16Emit) func(ro.Observable[int]) ro.Observable[int] {
 	visitor := func(ctx context.Context) bool { return ctx != nil && ctx.Value(c16VisitorKey{}) != nil }
+	if e.Sc.Int("ctxval", 0) == 1 {
+		// the values travel with a context derived from the subscription's (another concrete type than a
+		// plain Background): what the operator stores or hands to its timers must not care
+		tap := c16TapPlain(e, log, visitor)
+		withVal := ro.ContextWithValue[int](ctxKey("c16"), "item")
+		return func(src ro.Observable[int]) ro.Observable[int] { return withVal(tap(src)) }
+	}
+	return c16TapPlain(e, log, visitor)
+}
+
+func c16TapPlain(e *Env, log *[]c16Emit, visitor func(context.Context) bool) func(ro.Observable[int]) ro.Observable[int] {
 	return ro.TapWithContext(
 		func(ctx context.Context, v int) {
 			if !visitor(ctx) {
@@ -676,6 +688,9 @@ func runC16Periodic(e *Env) {
 	case "IntervalWithInitial":
 		first = dur(sc.Int("i", 0))
 		o = i64(ro.IntervalWithInitial(first, p))
+		if first < 0 {
+			first = 0 // the lower bounds below count from the subscription
+		}
 		want = func(k int) int { return k }
 		params = fmt.Sprintf(" initial=%su", c16U(first))
 	case "RangeWithInterval":
